@@ -291,14 +291,18 @@ Qed.
 Print Assumptions C07_registry_redirect.
 
 (* The package table the builder leaves behind: every requirement is mapped to a version that
-   satisfies it (C06 at graph level), and every export recorded as used is an export of that
-   version's manifest. *)
+   satisfies it (C06 at graph level) or to the version the lockfile seeded for it
+   (fill_from_lockfile: never checked against the requirement), and every export recorded as used is
+   an export of that version's manifest. *)
 From DG Require Proofs.JsrTable.
 
 Theorem C07_registry_table : forall W o roots g,
   Jsr.jbuild W o roots = Some g ->
-  (forall req v, lookup req (Jsr.pt_map (Jsr.jg_pkgs g)) = Some v -> Jsr.matches W req (snd v) = true) /\
+  (forall req v, lookup req (Jsr.pt_map (Jsr.jg_pkgs g)) = Some v ->
+     Jsr.matches W req (snd v) = true \/ In (req, v) (Jsr.jw_seed W)) /\
   (forall v e, In (v, e) (Jsr.pt_exports (Jsr.jg_pkgs g)) ->
      exists vi target, Jsr.v_meta (Jsr.ver_of W v) = Jsr.VOk vi /\ lookup e (Jsr.vi_exports vi) = Some target /\ target <> 0).
-Proof. exact JsrTable.jbuild_table. Qed.
+Proof.
+  intros W o roots g H. destruct (JsrTable.jbuild_table W o roots g H) as [A [B _]]. split; [exact A | exact B].
+Qed.
 Print Assumptions C07_registry_table.
